@@ -66,7 +66,8 @@ Libs == { ("T1" :> b1) @@ ("T2" :> b2) @@ ("SP" :> SpBody) :
 Values == { <<Txt(t)>> : t \in Texts }
           \cup { <<Call("SP", <<>>)>>, <<Txt(<<"SP">>), Call("SP", <<>>)>>,
                  <<Call("T1", <<Pos(<<Txt(<<"i">>)>>)>>)>>, <<Call("NOPE", <<>>)>>,
-                 <<Par(<<"1">>)>>, <<ParD(<<"z">>, <<Txt(<<"dz">>)>>)>> }
+                 <<Par(<<"1">>)>>, <<ParD(<<"z">>, <<Txt(<<"dz">>)>>)>>,
+                 <<ParD(<<"z">>, <<Call("T1", <<Pos(<<Txt(<<"q">>)>>)>>)>>)>> }
 ArgKinds == { Pos(v) : v \in Values }
             \cup { Named(key, v) : key \in { <<"x">>, <<"SP", "x", "NL">>, <<"1">>, <<"2">>, <<"y">> }, v \in Values }
 ArgSeqs == { <<>> } \cup { <<a>> : a \in ArgKinds } \cup { <<a, b>> : a \in ArgKinds, b \in ArgKinds }
@@ -76,6 +77,7 @@ ArgSeqsQ == { <<>> } \cup { <<a>> : a \in ArgKinds }
 
 CallPages == { <<Call(n, as)>> : n \in {"T1", "T2"}, as \in (IF Universe = "Q" THEN ArgSeqsQ ELSE ArgSeqs) }
              \cup { <<Txt(<<"p">>), Call("NOPE", <<Pos(<<Txt(<<"a">>)>>)>>), Txt(<<"q">>)>> }
+             \cup { v : v \in Values }
 CtlPages ==
   { <<If(c, y, n)>> : c \in Values, y \in Values, n \in { <<Txt(<<"SP", "n">>)>>, <<>> } }
   \cup { <<IfEq(a, b, <<Txt(<<"SP", "eq", "NL">>)>>, <<Txt(<<"*", "ne">>)>>)>> : a \in Values, b \in Values }
